@@ -5,7 +5,8 @@ import json, os, shutil, subprocess, sys, tempfile, time
 V = os.path.dirname(os.path.dirname(os.path.abspath(__file__)))
 pid = sys.argv[1]
 name = sys.argv[2] if len(sys.argv) > 2 else pid
-src = "/tmp/seed/%s-out" % pid
+base = sys.argv[3] if len(sys.argv) > 3 else "/tmp/seed"
+src = "%s/%s-out" % (base, pid)
 meta = json.load(open(os.path.join(src, "meta.json")))
 d = tempfile.mkdtemp(prefix="pfz-confirm-")
 repo = d + "/repo"
@@ -33,7 +34,7 @@ try:
         dst = os.path.join(repo, rel)
         os.makedirs(os.path.dirname(dst), exist_ok=True)
         shutil.copy(os.path.join(src, fn), dst)
-    demo = meta["demo_cmd"].replace("/tmp/seed/%s/target" % pid, d + "/target").replace("/tmp/seed/%s" % pid, repo)
+    demo = meta["demo_cmd"].replace("%s/%s/target" % (base, pid), d + "/target").replace("%s/%s" % (base, pid), repo)
     t0 = time.time()
     rc1, out1 = sh(demo)
     log["demo_with_patch"] = {"rc": rc1, "tail": out1[-600:], "secs": round(time.time() - t0)}
